@@ -173,7 +173,10 @@ pub use self::inner::{rebuild_interest_cache, register};
 #[cfg(feature = "std")]
 mod inner {
     use super::*;
+    #[cfg(tokio_rs_tracing_verif)]
+    use crate::__verif::RwLock;
     use once_cell::sync::Lazy;
+    #[cfg(not(tokio_rs_tracing_verif))]
     use std::sync::RwLock;
     use std::vec::Vec;
 
@@ -213,10 +216,6 @@ mod inner {
     /// [`Collect`]: crate::collect::Collect
     /// [cache-docs]: crate::callsite#rebuilding-cached-interest
     pub fn rebuild_interest_cache() {
-        #[cfg(tokio_rs_tracing_verif)]
-        let mut dispatchers =
-            crate::__verif::write(&REGISTRY.dispatchers, "callsite:rebuild:write").unwrap();
-        #[cfg(not(tokio_rs_tracing_verif))]
         let mut dispatchers = REGISTRY.dispatchers.write().unwrap();
         let callsites = &REGISTRY.callsites;
         rebuild_interest(callsites, &mut dispatchers);
@@ -233,21 +232,12 @@ mod inner {
     /// [`Callsite`]: crate::callsite::Callsite
     /// [reg-docs]: crate::callsite#registering-callsites
     pub fn register(registration: &'static Registration) {
-        #[cfg(tokio_rs_tracing_verif)]
-        let dispatchers =
-            crate::__verif::read(&REGISTRY.dispatchers, "callsite:register:read").unwrap();
-        #[cfg(not(tokio_rs_tracing_verif))]
         let dispatchers = REGISTRY.dispatchers.read().unwrap();
         rebuild_callsite_interest(&dispatchers, registration.callsite);
         REGISTRY.callsites.push(registration);
     }
 
     pub(crate) fn register_dispatch(dispatch: &Dispatch) {
-        #[cfg(tokio_rs_tracing_verif)]
-        let mut dispatchers =
-            crate::__verif::write(&REGISTRY.dispatchers, "callsite:register_dispatch:write")
-                .unwrap();
-        #[cfg(not(tokio_rs_tracing_verif))]
         let mut dispatchers = REGISTRY.dispatchers.write().unwrap();
         let callsites = &REGISTRY.callsites;
 
